@@ -174,7 +174,7 @@ def gen_case(rng, malformed=False):
 
 
 def gen_cases(rng, tier):
-    n = 500 if tier == "quick" else 6000
+    n = 800 if tier == "quick" else 12000
     return [gen_case(rng.fork(k), malformed=(k % 6 == 5)) for k in range(n)]
 
 
